@@ -17,6 +17,8 @@ doc=$(cargo test --offline --doc 2>&1 | grep -E "^test result" | head -1)
 mut_demo=$(cargo test --offline --test demo 2>&1 | grep -E "^test result" | head -1)
 git checkout -q -- src; rm -rf tests
 echo "demo on unchanged: $base_demo"; echo "suite with change: $suite / $doc"; echo "demo with change: $mut_demo"
+# evidence files are rewritten by every check run: keep the ones of the unchanged tree
+rm -rf /tmp/evidence_keep && cp -r /verif/evidence /tmp/evidence_keep
 cd /repo && git apply $out/patch.diff || { echo "patch does not apply to /repo"; exit 2; }
 res=""
 for c in $checks; do
@@ -24,6 +26,8 @@ for c in $checks; do
   if [ -n "$o" ]; then res="$res $c:DETECTED"; echo "  $c -> $o"; else res="$res $c:quiet"; fi
 done
 cd /repo && git checkout -- . 
+python3 /verif/tools/translate.py > /dev/null
+rm -rf /verif/evidence && cp -r /tmp/evidence_keep /verif/evidence
 echo "RESULT $name:$res"
 python3 - "$name" "$base_demo" "$suite" "$doc" "$mut_demo" "$res" <<'PY'
 import json,sys
